@@ -254,7 +254,7 @@ MALFORMED = [
     '', ' ', '\t', 'd', 'h', 'm', 's', 'D', 'x', '1x', '1h2d', '1m2h', '1s2m', '5s1d', '1h1h',
     '1d1d', '1s1s', '2m3m', '1.5h30m', '1,5d12h', '1.5d1s', '2.5m10', '1.5m10s', '0.5h0m',
     'P1Y', 'P1M', 'P1Y1D', 'P0Y1M', 'P2M1DT1H', 'P', 'PT', 'T1H', '1DT2H', 'P1D2H',
-    'P1H', 'PT1D', 'P1S', 'p1d', 'pt1h', 'Pt1H', 'PT1h', 'P1dT1H', 'PT1H1H', 'PT1M1H', 'PT1S1M',
+    'P1H', 'PT1D', 'P1S', 'p1d', 'pt1h', 'pt1m', 'P T 10 S', '1 0 0s', 'Pt1H', 'PT1h', 'P1dT1H', 'PT1H1H', 'PT1M1H', 'PT1S1M',
     'P1DT1.5H30M', 'P1.5DT1H', 'PT1,5M10S', 'PP1D', 'P1DTT1H', 'P1D1D', 'P-1D', 'PT-5S',
     '-5s', '-5', '+5s', '- 5s', '1e3s', '1e3', '1E3', '1.2.3s', '1,2,3', '1.2,3', '1..2s',
     '1_000s', '0x10', '1h 2 m 3 x', '1h;2m', '1h,2m', '1h+2m', 'one hour', '1 hour', '1hr',
@@ -340,7 +340,23 @@ def run_config(cfg):
                 acc.sample({'kind': 'render', 'parts': parts,
                             'example': next(iter(renderings(parts)))[0]}, limit=1)
     elif kind == 'malformed':
-        for s in MALFORMED:
+        # the verdict depends on the string alone, not on what was converted before: the list is
+        # tried, then well-formed look-alikes (case / blanks changed) are converted, then the list
+        # is tried again
+        def lookalikes():
+            for m in MALFORMED:
+                for v in {m.upper(), m.lower(), m.replace(' ', ''), m.upper().replace(' ', ''),
+                          'P' + m.upper() if not m.upper().startswith('P') else m.upper()}:
+                    try:
+                        convert(v)
+                    except Exception:   # pylint: disable=broad-except
+                        pass
+            for v in ('PT1M', '100s', 'PT10S', '1d', 'P1D', '1H', 'pt1m'.upper()):
+                convert(v)
+        for s in MALFORMED + [None] + MALFORMED:
+            if s is None:
+                lookalikes()
+                continue
             acc.execs += 1
             acc.distinct += 1
             for fn in (convert, time_period):
